@@ -26,6 +26,14 @@ properties; reference \\uN decoding), IfaceGen.tla (bounded universes + laws), I
    hold every byte 127..255 (literal and hex strings, Tj and TJ) or an unpaired UTF-16 surrogate, and HTML numeric
    character references that denote no character -- every text accessor and every string of the metadata object
    (FileMeta.strsutf8) must encode to UTF-8.
+2d. Round-5 families (IfaceGen modes degens / names, opfs extended): degenerate-but-accepted inputs (MHTML without an
+   HTML part, e-mail without body, empty sheet, zero-page PDF, DOCX / ODT without body paragraphs, deck without
+   slides, empty HTML / RTF / plain files, EPUB without spine items, archive with empty members, ...) x every
+   designated path form -- the path clause holds for every result; names of the unit containers (ODS table:name,
+   ODP / ODG draw:name, XLSX sheet name, PPTX cSld name, EPUB chapter title: absent / empty / blank / 1 char / 31
+   chars / non-ASCII) -- no accessor raises, text accessors return str; package documents with no namespace and
+   with the OEB 1.x package namespace, dc elements in a <dc-metadata> wrapper (open finding KF-C04-01: a rejected
+   trace of that domain counts as KNOWN only if TLC accepts it with the deviation Epub!DcMetadataWrapperIgnored on).
 3. code -> spec: a recorder calls the WHOLE accessor protocol on every result and every unit, image and table
    reachable from it and logs one event per call with the projected return (or the exception); the same is done
    for every repository fixture, for seeded mutants (truncation, byte flips, zeroed / 0xFF ranges, applied to
@@ -54,8 +62,9 @@ from .. import c04_lib as L
 
 SKIP_FIXTURE_PARTS = ("password", "protected", "encrypted")
 ARCHIVE_EXT = (".zip", ".7z", ".tar", ".gz", ".tgz", ".bz2", ".xz", ".tbz2", ".txz")
+KF_WRAPPER, KF_WRAPPER_DEV = "KF-C04-01", "Epub!DcMetadataWrapperIgnored"
 LAWS = ["Inv_NoneWhenNoPath", "Inv_Acceptable", "Inv_Suffix", "Inv_Idempotent", "Inv_FolderOfFile", "Inv_NameOnly",
-        "Inv_FormsInUniverse", "Inv_DecodeWellFormed", "Inv_DecodeInvertsToUnits"]
+        "Inv_FormsInUniverse", "Inv_DecodeWellFormed", "Inv_DecodeInvertsToUnits", "Inv_ReportedUnchanged"]
 
 
 def _gen_cfg(mode, formats, max_dirs, max_val, full, dev=(), invs=LAWS, pdf_bytes=(173,)):
@@ -208,7 +217,8 @@ def run(ctx):
 
     # ------------------------------------------------------------------ 1. TLC: laws + enumeration
     d_paths, d_cases, d_units = (ctx.scratch / f"{m}.dump" for m in ("paths", "cases", "units"))
-    sens = (("paths", "SuffixFromFirstDot", "Inv_Suffix"), ("units", "Rtf!UnitsUnpaired", "Inv_DecodeWellFormed"))
+    sens = (("paths", "SuffixFromFirstDot", "Inv_Suffix"), ("units", "Rtf!UnitsUnpaired", "Inv_DecodeWellFormed"),
+            ("opfs", KF_WRAPPER_DEV, "Inv_ReportedUnchanged"))
     runs = {
         "laws": lambda: run_tlc("IfaceGen", _gen_cfg("paths", formats, 2, 1, False), scratch=ctx.scratch, timeout=900,
                                 workers=4, dump=d_paths if max_dirs == 2 else None),
@@ -219,10 +229,12 @@ def run(ctx):
         "cases": lambda: run_tlc("IfaceGen", _gen_cfg("cases", formats, 1, max_val, False), scratch=ctx.scratch,
                                  workers=4, dump=d_cases, timeout=900),
     }
-    d_extra = {m: ctx.scratch / f"{m}.dump" for m in ("heads", "opfs", "alts", "srcs", "lens", "pdfs", "ncrs")}
+    d_extra = {m: ctx.scratch / f"{m}.dump" for m in ("heads", "opfs", "alts", "srcs", "lens", "pdfs", "ncrs", "degens", "names")}
     for m in d_extra:
         runs[m] = (lambda m=m: run_tlc("IfaceGen", _gen_cfg(m, formats, 1, 1, False, invs=[], pdf_bytes=range(127, 256)),
                                        scratch=ctx.scratch, workers=2, dump=d_extra[m]))
+    runs["opfs"] = lambda: run_tlc("IfaceGen", _gen_cfg("opfs", formats, 1, 1, False, invs=["Inv_ReportedUnchanged"]),
+                                   scratch=ctx.scratch, workers=2, dump=d_extra["opfs"])
     for mode, dev, inv in sens:
         runs["sens:" + dev] = (lambda mode=mode, dev=dev, inv=inv: run_tlc(
             "IfaceGen", _gen_cfg(mode, formats, 1, 1, False, dev=[dev], invs=[inv]), scratch=ctx.scratch, workers=2,
@@ -245,7 +257,9 @@ def run(ctx):
     ev.tlc("IfaceGen lens: picture geometry values (ODF lengths, OOXML extents)", tr["lens"])
     ev.tlc("IfaceGen pdfs: tagged PDFs, caption / description strings with a byte 127..255 or an unpaired surrogate", tr["pdfs"])
     ev.tlc("IfaceGen ncrs: HTML numeric character references that denote no character", tr["ncrs"])
-    for k in ("laws", "units", "cases"):
+    ev.tlc("IfaceGen degens: degenerate-but-accepted inputs x path forms", tr["degens"])
+    ev.tlc("IfaceGen names: naming attributes of unit containers", tr["names"])
+    for k in ("laws", "units", "cases", "opfs"):
         if tr[k].violated:
             v.violation(what=f"IfaceGen ({k}): {tr[k].violated} violated on the specification", observed=tr[k].trace[:1])
     for mode, dev, inv in sens:
@@ -267,7 +281,8 @@ def run(ctx):
     ctx.log(f"TLC enumerated {len(paths)} abstract paths, {len(cases)} (form x value x format) cases, {len(units)} \\uN runs, "
             f"{len(extra['heads'])} head layouts, {len(extra['opfs'])} OPF layouts, {len(extra['alts'])} picture alt-text cases, "
             f"{len(extra['srcs'])} picture sources, {len(extra['lens'])} geometry values, {len(extra['pdfs'])} tagged PDFs, "
-            f"{len(extra['ncrs'])} character-reference cases")
+            f"{len(extra['ncrs'])} character-reference cases, {len(extra['degens'])} degenerate inputs x path forms, "
+            f"{len(extra['names'])} container-name cases")
 
     # ------------------------------------------------------------------ 2. jobs
     if os.path.exists(L.NX_ROOT):
@@ -320,7 +335,26 @@ def run(ctx):
         else:
             data = L.epub_variant(render(doc, f), props, c["layout"])
         sp = L.spell_path(form_paths[i % len(form_paths)], r2, own_ext=f)
-        add({"id": f"{c['kind']}:{i}", "fmt": f, "data": data, "sp": sp, "props": props}, kind=c["kind"], abstract=c, fmt=f)
+        add({"id": f"{c['kind']}:{i}", "fmt": f, "data": data, "sp": sp, "props": props,
+             "dcwrapper": c["kind"] == "opf" and c["layout"]["wrapper"] == "dc-metadata"}, kind=c["kind"], abstract=c, fmt=f)
+    # degenerate-but-accepted inputs x every path form; names of the unit containers
+    degen_cache = {}
+    for i, c in enumerate(extra["degens"]):
+        if c["input"] not in degen_cache:
+            degen_cache[c["input"]] = L.degenerate_input(c["input"])
+        f, data = degen_cache[c["input"]]
+        sp = L.spell_path(c["path"], random.Random(f"{ctx.seed}:degen:{i}"), own_ext=f)
+        if f == "zip":
+            sp = dict(sp, root="dc", dirs=[], stem="", exts=[], fexists=False, dexists=False)
+            add({"id": f"degen:{i}", "fmt": f, "data": data, "sp": sp, "parg": "some dir/arch.zip" if c["form"] % 2 else None,
+                 "mat": False}, kind="degen", abstract={"input": c["input"], "form": c["form"]}, fmt=f)
+        else:
+            add({"id": f"degen:{i}", "fmt": f, "data": data, "sp": sp}, kind="degen",
+                abstract={"input": c["input"], "form": c["form"], "path": c["path"]}, fmt=f)
+    for i, c in enumerate(extra["names"]):
+        x = c["x"]
+        add({"id": f"name:{i}", "fmt": x["fmt"], "data": L.name_variant(base[x["fmt"]], x["fmt"], x["which"], x["name"]),
+             "sp": dict(none_sp0), "parg": None, "mat": False}, kind="name", abstract=x, fmt=x["fmt"])
     # alternative texts of pictures (post-processed packages of the shared writers)
     for i, c in enumerate(extra["alts"]):
         a = c["alt"]
@@ -416,7 +450,7 @@ def run(ctx):
             traces.append({"id": f"{j['id']}@{k}", "hdr": hdr, "ev": evs[k:k + L.MAX_EVENTS_PER_TRACE]})
             owner.append((j, r, k))
     ctx.log("extraction outcomes: " + ", ".join(f"{k[0]}/{k[1]}={n}" for k, n in sorted(stat.items())))
-    gen_kinds = ("path", "case", "units", "imgdamage", "head", "opf", "alt", "src", "len", "pdf", "ncr")
+    gen_kinds = ("path", "case", "units", "imgdamage", "head", "opf", "alt", "src", "len", "pdf", "ncr", "degen", "name")
     gen_total = sum(n for (k, s), n in stat.items() if k in gen_kinds)
     gen_ok = sum(n for (k, s), n in stat.items() if k in gen_kinds and s == "ok")
     if gen_ok < 0.9 * gen_total:
@@ -435,6 +469,16 @@ def run(ctx):
     n_events = 0
     rej = [i for i, tv in enumerate(br.verdicts) if not tv.accepted]
     first_bad = dict(zip(rej, _diagnose([traces[i] for i in rej], ctx.scratch)))
+    # KF-C04-01: a rejected trace in the finding's domain (EPUB, dc elements in a <dc-metadata> wrapper) is a known
+    # finding iff TLC accepts it under the as-built model (deviation on); anything else stays a violation
+    dom = [i for i in rej if traces[i]["hdr"].get("dcwrapper")]
+    asbuilt_ok = set()
+    if dom and v.open_finding(KF_WRAPPER):
+        bra = validate("IfaceTrace", f'SPECIFICATION TraceSpec\nCONSTANTS Deviations = {{"{KF_WRAPPER_DEV}"}}\nCONSTRAINT TraceAccept\n',
+                       [traces[i] for i in dom], scratch=ctx.scratch, parallel=4, min_chunk=150, timeout=900, diagnose=0)
+        ev.tlc_counts("IfaceTrace as-built (Epub!DcMetadataWrapperIgnored): rejected traces of the finding's domain", bra.distinct,
+                      bra.states, bra.wall_s)
+        asbuilt_ok = {i for i, tv in zip(dom, bra.verdicts) if tv.accepted}
     for i, (t, (j, r, k0), tv) in enumerate(zip(traces, owner, br.verdicts)):
         m = meta[j["id"]]
         if tv.accepted:
@@ -444,6 +488,9 @@ def run(ctx):
         idx = first_bad[i]
         e = r["events"][k0 + idx]
         what = _describe(e)
+        if i in asbuilt_ok:
+            v.known(KF_WRAPPER, f"[{m['kind']}: generated {m['fmt']} document] {what}", case={"abstract": m.get("abstract")})
+            continue
         src = m.get("file") or f"generated {m['fmt']} document"
         inp = {"kind": m["kind"], "input": src, "mutation": r.get("msg", "") if m["kind"] == "mutant" else "",
                "path_argument": r.get("parg"), "abstract": m.get("abstract"), "props": j.get("props")}
@@ -456,7 +503,7 @@ def run(ctx):
         if r["status"] == "ok" and m["kind"] != "fixture":
             ev.nontrivial((m["kind"], json.dumps(m.get("abstract"), sort_keys=True), m.get("file"), r.get("msg")))
     shown = 0
-    for want in ("path", "case", "units", "head", "opf", "alt", "src", "len", "pdf", "ncr", "imgdamage", "fixture", "mutant"):
+    for want in ("path", "case", "units", "head", "opf", "alt", "src", "len", "pdf", "ncr", "degen", "name", "imgdamage", "fixture", "mutant"):
         for j in jobs:
             m, r = meta[j["id"]], results[j["id"]]
             if m["kind"] == want and r["status"] == "ok" and r["events"]:
@@ -475,6 +522,7 @@ def run(ctx):
            constants={"MaxDirs": max_dirs, "MaxVal": max_val, "paths": len(paths), "paths_replayed": len(replay_paths), "cases": len(cases), "unit_runs": len(units), "head_layout_cases": len(extra["heads"]),
                       "opf_layout_cases": len(extra["opfs"]), "picture_alt_cases": len(extra["alts"]), "picture_source_cases": len(extra["srcs"]),
                       "geometry_cases": len(extra["lens"]), "tagged_pdf_cases": len(extra["pdfs"]), "ncr_cases": len(extra["ncrs"]),
+                      "degenerate_cases": len(extra["degens"]), "container_name_cases": len(extra["names"]),
                       "fixtures": len(fixtures), "mutants_tried": sum(n for (k, s), n in stat.items() if k == "mutant"),
                       "mutants_accepted": acc, "accessor_events_validated": n_events,
                       "skipped_timeouts": sum(n for (k, s), n in stat.items() if s == "timeout"), "formats": formats})
